@@ -841,7 +841,7 @@ class Variant(VariantBase):
         self._assert_not_blank("arches")
 
     def _validate_parent_arch(self):
-        if not self.parent:
+        if self.parent is None:
             return
         for arch in self.arches:
             if arch not in self.parent.arches:
